@@ -46,8 +46,14 @@ package gtab
 //@   ensures k != nil ==> keep == keepSpec(k, gid)
 //@   modifies nothing
 
+// GposValueRecord.Apply: placement offsets and the horizontal advance of the
+// glyph are adjusted by the record (16-bit arithmetic of funit.Int16), the
+// glyph id and text are untouched; a nil record changes nothing.
 //@ func (vr *GposValueRecord) Apply(glyph *glyph.Info)   props: C07 C06
 //@   requires glyph != nil
+//@   ensures vr == nil ==> glyph.XOffset == old(glyph.XOffset) && glyph.YOffset == old(glyph.YOffset) && glyph.Advance == old(glyph.Advance)
+//@   ensures vr != nil ==> glyph.XOffset == int16(old(glyph.XOffset) + vr.XPlacement) && glyph.YOffset == int16(old(glyph.YOffset) + vr.YPlacement) && glyph.Advance == int16(old(glyph.Advance) + vr.XAdvance)
+//@   ensures glyph.GID == old(glyph.GID) && glyph.Text == old(glyph.Text)
 //@   modifies glyph.*
 
 // Pair adjustment, format 2 (OpenType GPOS lookup type 2): if the pair has a
@@ -486,3 +492,53 @@ package gtab
 //@   ensures err == nil ==> parser.inv(p) && s != nil && (is(s, *extensionSubtable) ==> s.(*extensionSubtable) != nil)
 //@   ensures p.r == old(p.r) && faults(p.r) >= old(faults(p.r)) && (faults(p.r) > old(faults(p.r)) ==> err != nil)
 //@   modifies p.*, allelems(byte), rpos(p.r), faults(p.r)
+
+// Single adjustment positioning (GPOS lookup type 1): a covered glyph is
+// adjusted by the value record (format 1: one record for all glyphs, format 2:
+// the record selected by the coverage index), every other glyph and the
+// length of the sequence are untouched, the next position is a+1.
+//@ func (l *Gpos1_1) apply(ctx *Context, a int, b int) (next int)   props: C06 C07
+//@   requires l != nil && ctx != nil && 0 <= a && a < b && b <= len(ctx.seq) && stackinv(ctx) && keepOK(ctx) && llOK(ctx)
+//@   ensures next >= -1 && next <= len(ctx.seq) && stackinv(ctx) && len(ctx.seq) == old(len(ctx.seq)) && len(ctx.stack) == old(len(ctx.stack))
+//@   ensures (next == -1) == !has(l.Cov, old(ctx.seq[a].GID))
+//@   ensures next != -1 ==> next == a + 1
+//@   ensures next != -1 && l.Adjust != nil ==> ctx.seq[a].XOffset == int16(old(ctx.seq[a].XOffset) + l.Adjust.XPlacement) && ctx.seq[a].Advance == int16(old(ctx.seq[a].Advance) + l.Adjust.XAdvance)
+//@   ensures forall i int :: 0 <= i && i < len(ctx.seq) ==> ctx.seq[i].GID == old(ctx.seq[i].GID)
+//@   ensures forall i int :: 0 <= i && i < len(ctx.seq) && i != a ==> ctx.seq[i].XOffset == old(ctx.seq[i].XOffset) && ctx.seq[i].YOffset == old(ctx.seq[i].YOffset) && ctx.seq[i].Advance == old(ctx.seq[i].Advance)
+//@   may_panic
+//@   modifies ctx.seq[*]
+
+//@ func (l *Gpos1_2) apply(ctx *Context, a int, b int) (next int)   props: C06 C07
+//@   requires l != nil && ctx != nil && 0 <= a && a < b && b <= len(ctx.seq) && stackinv(ctx) && keepOK(ctx) && llOK(ctx)
+//@   requires forall g uint16 :: has(l.Cov, g) ==> 0 <= l.Cov[g] && l.Cov[g] < len(l.Adjust)
+//@   ensures next >= -1 && next <= len(ctx.seq) && stackinv(ctx) && len(ctx.seq) == old(len(ctx.seq)) && len(ctx.stack) == old(len(ctx.stack))
+//@   ensures (next == -1) == !has(l.Cov, old(ctx.seq[a].GID))
+//@   ensures next != -1 ==> next == a + 1
+//@   ensures next != -1 && l.Adjust[l.Cov[old(ctx.seq[a].GID)]] != nil ==> ctx.seq[a].XOffset == int16(old(ctx.seq[a].XOffset) + l.Adjust[l.Cov[old(ctx.seq[a].GID)]].XPlacement) && ctx.seq[a].Advance == int16(old(ctx.seq[a].Advance) + l.Adjust[l.Cov[old(ctx.seq[a].GID)]].XAdvance)
+//@   ensures forall i int :: 0 <= i && i < len(ctx.seq) ==> ctx.seq[i].GID == old(ctx.seq[i].GID)
+//@   ensures forall i int :: 0 <= i && i < len(ctx.seq) && i != a ==> ctx.seq[i].XOffset == old(ctx.seq[i].XOffset) && ctx.seq[i].YOffset == old(ctx.seq[i].YOffset) && ctx.seq[i].Advance == old(ctx.seq[i].Advance)
+//@   may_panic
+//@   modifies ctx.seq[*]
+
+// GPOS type 1 readers (satisfy the subtable reader contract; format 2 cuts the
+// value record list and the coverage table to the same length).
+//@ func readValueRecord(p *parser.Parser, valueFormat uint16) (vr *GposValueRecord, err error)   props: C02 C18
+//@   requires parser.inv(p)
+//@   ensures err == nil ==> parser.inv(p) && (vr == nil) == (valueFormat == 0)
+//@   ensures p.r == old(p.r) && faults(p.r) >= old(faults(p.r)) && (faults(p.r) > old(faults(p.r)) ==> err != nil)
+//@   modifies p.*, allelems(byte), rpos(p.r), faults(p.r)
+
+//@ func readGpos1_1(p *parser.Parser, subtablePos int64) (s Subtable, err error)   props: C02 C18 C07
+//@   requires parser.inv(p) && subtablePos >= 0 && subtablePos <= 4611686018427387904
+//@   ensures err == nil ==> parser.inv(p) && s != nil && is(s, *Gpos1_1) && s.(*Gpos1_1) != nil
+//@   ensures p.r == old(p.r) && (faults(p.r) > old(faults(p.r)) ==> err != nil)
+//@   modifies p.*, allelems(byte), rpos(p.r), faults(p.r)
+
+//@ func readGpos1_2(p *parser.Parser, subtablePos int64) (s Subtable, err error)   props: C02 C18 C07
+//@   requires parser.inv(p) && subtablePos >= 0 && subtablePos <= 4611686018427387904
+//@   ensures err == nil ==> parser.inv(p) && s != nil && is(s, *Gpos1_2) && s.(*Gpos1_2) != nil
+//@   ensures err == nil ==> forall g uint16 :: has(s.(*Gpos1_2).Cov, g) ==> 0 <= s.(*Gpos1_2).Cov[g] && s.(*Gpos1_2).Cov[g] < len(s.(*Gpos1_2).Adjust)
+//@   ensures p.r == old(p.r) && (faults(p.r) > old(faults(p.r)) ==> err != nil)
+//@   modifies p.*, allelems(byte), rpos(p.r), faults(p.r)
+//@   loop 0
+//@     invariant parser.inv(p) && p.r == old(p.r) && faults(p.r) <= old(faults(p.r)) && fresh(valueRecords) && len(valueRecords) == valueCount
